@@ -165,6 +165,20 @@ func awaitPandoraTermination(pandora *engine.Engine, gracefulShutdown func(), er
 		case sig := <-sigs:
 			log.Fatal("Another signal received. Quiting.", zap.Stringer("signal", sig))
 		case err := <-errs:
+			// Engine run returns as soon as its context is canceled, but started tasks can be
+			// still running: aggregator flushes and closes results after that.
+			tasksFinished := make(chan struct{})
+			go func() {
+				pandora.Wait()
+				close(tasksFinished)
+			}()
+			select {
+			case <-tasksFinished:
+			case <-time.After(interruptTimeout):
+				log.Fatal("Interrupt timeout exceeded")
+			case sig := <-sigs:
+				log.Fatal("Another signal received. Quiting.", zap.Stringer("signal", sig))
+			}
 			log.Fatal("Engine interrupted", zap.Error(err))
 		}
 
